@@ -197,6 +197,45 @@ def run(facts, res):
         res.instance("E3", "the cache guard is held at every call after its acquisition (no window between probe and use): %s" % held_all, rb.loc())
         if not held_all:
             res.violation("E3", "rebuild_array_order|cache-guard-released", "rebuild_array_order releases the cache guard during the reconstruction", rb.loc())
+        # cache lookups are keyed by the revision currently being examined: outside loops the requested revision, inside a
+        # loop a value defined by that loop's own iteration (never a cursor left over from another loop)
+        cfg = cfg_of(rb)
+        hdrs = sorted(h for h in cfg.loop_headers())
+
+        def loop_of(block):
+            best = None
+            for h in hdrs:
+                if cfg.dominates(h, block) and cfg.reaches(block, h):
+                    body = {x for x in cfg.reachable_blocks(h) if cfg.reaches(x, h)} | {h}
+                    if best is None or len(body) < len(best):
+                        best = body
+            return best
+        n_look = 0
+        for bi, t in rb.calls():
+            c_ = t.callee
+            if c_ is None or c_.name not in ("get", "contains", "peek", "get_mut") or "lru::LruCache" not in c_.path or len(t.args) < 2:
+                continue
+            n_look += 1
+            k = arg_term(rb, t, 1, 10)
+            body = loop_of(bi)
+            if body is None:
+                ok = peel(k)[0] == "param" and peel(k)[1] == 2
+                why = "outside loops: key is the requested revision"
+            else:
+                kk = k
+                while kk[0] in ("ref", "deref", "cast"):
+                    kk = kk[1]
+                kvars = [kk] if kk[0] == "var" else []
+                ok = bool(kvars) and all(any(d.block in body for d in du.defs.get(x[1], [])) for x in kvars)
+                if not kvars:
+                    ok = any(x[0] == "call" and x[3] in body for x in walk(k))
+                why = "inside a loop: key is defined by that loop's iteration"
+            res.instance("E3", "cache.%s keyed by the revision under examination (%s): %s" % (c_.name, why, ok), rb.loc(t.line))
+            if not ok:
+                res.violation("E3", "rebuild_array_order|cache-lookup-key",
+                              "rebuild_array_order looks the cache up under %s, which is not the revision being examined at that point (a cursor from another "
+                              "loop): the cached order of a different ancestor would be used and the edit scripts in between skipped" % fmt(k, 4), rb.loc(t.line))
+        res.floor("E3", "cache lookups in the reconstruction", n_look, 2)
         # who-may-write: the reconstruction function is the only writer of the array cache
         writers = set()
         for ob in facts.repo_bodies():
